@@ -26,7 +26,7 @@ import (
 //	call(h,m,args)      -> System.Contract.Call(h,m,All,args)
 //	tryCall(h,m,args)   -> try{call} catch{}; then notify "ok"/"caught"
 //	seq(list)           -> for [m,args] in list: Contract.Call(self,m,All,args)
-//	onNEP17Payment(from,amount,data) -> abort when data=="reject", else put("paid",amount)+notify
+//	onNEP17Payment(from,amount,data) -> abort when data=="reject", throw when data=="throw", else put("paid",amount)+notify
 //	oracleCb(url,userData,code,result) -> put("ores",result) put("ocode",code) notify(url); throw when userData=="fail"
 //	                       (callback of the native Oracle contract; a request is call(Oracle,"request",[url,filter,"oracleCb",userData,gas]))
 //	_deploy(data,isUpdate) -> put("dep",isUpdate)
@@ -243,6 +243,13 @@ func buildK(name string, variant byte) *kContract {
 			emit.Opcodes(w, opcode.EQUAL)
 			emit.Instruction(w, opcode.JMPIFNOT, []byte{3})
 			emit.Opcodes(w, opcode.ABORT)
+			// data == "throw": a catchable exception raised inside a callback made by a native contract
+			emit.Opcodes(w, opcode.LDARG2)
+			emit.String(w, "throw")
+			emit.Opcodes(w, opcode.EQUAL)
+			emit.Instruction(w, opcode.JMPIFNOT, []byte{2 + 7 + 1}) // over PUSHDATA1 "nopay" (7 bytes) and THROW
+			emit.String(w, "nopay")
+			emit.Opcodes(w, opcode.THROW)
 			emit.Opcodes(w, opcode.LDARG1)
 			emit.String(w, "paid")
 			sys(w, interopnames.SystemStorageGetContext)
@@ -331,6 +338,29 @@ func buildK(name string, variant byte) *kContract {
 	}
 	m.ABI.Events = []manifest.Event{{Name: "E", Parameters: []manifest.Parameter{manifest.NewParameter("x", smartcontract.AnyType)}}}
 	m.Permissions = []manifest.Permission{*manifest.NewPermission(manifest.PermissionWildcard)}
+	// manifests differ in how they express their permissions (what is stored, and what a restarted node parses back)
+	switch (int(variant) + int(name[len(name)-1])) % 3 {
+	case 1:
+		// nothing of the GAS contract may be called (explicitly empty method list), anything else by method name
+		noGas := manifest.NewPermission(manifest.PermissionHash, nativehashes.GasToken)
+		noGas.Methods.Value = []string{}
+		byName := manifest.NewPermission(manifest.PermissionWildcard)
+		for _, km := range methods {
+			byName.Methods.Add(km.name)
+		}
+		for _, n := range []string{"balanceOf", "request", "deploy", "vote", "getPrice", "totalSupply"} {
+			byName.Methods.Add(n)
+		}
+		m.Permissions = []manifest.Permission{*noGas, *byName}
+	case 2:
+		// the native token contracts by hash with all methods, everything else by wildcard
+		gas := manifest.NewPermission(manifest.PermissionHash, nativehashes.GasToken)
+		neo := manifest.NewPermission(manifest.PermissionHash, nativehashes.NeoToken)
+		neo.Methods.Add("balanceOf")
+		neo.Methods.Add("transfer")
+		m.Permissions = []manifest.Permission{*gas, *neo, *manifest.NewPermission(manifest.PermissionWildcard)}
+		m.SupportedStandards = []string{"NEP-27"}
+	}
 	ne, err := nef.NewFile(script)
 	if err != nil {
 		panic(err)
